@@ -43,7 +43,24 @@ res_md = os.path.join(VERIF, "seeded", "RESULTS.md")
 table = ""
 if os.path.exists(res_md):
     table = "\n".join(l for l in open(res_md).read().split("\n") if l.startswith("|"))
-out.append(tail.replace("{{SEEDED_RESULTS}}", table))
+import glob, re
+nat_lines = []
+for f in sorted(glob.glob(os.path.join(VERIF, "evidence", "C*.json"))):
+    try:
+        ev = json.load(open(f))
+    except Exception:
+        continue
+    names = set()
+    for axs in (ev.get("coverage", {}).get("theorem_axioms", {}) or {}).values():
+        for a in axs:
+            m = re.match(r"(.*)\._native\.native_decide\.", a)
+            if m:
+                names.add(m.group(1).replace("EncodingRs.", ""))
+    if names:
+        nat_lines.append("  * %s (%d): %s" % (os.path.basename(f)[:-5], len(names), ", ".join("`%s`" % n for n in sorted(names))))
+    else:
+        nat_lines.append("  * %s: none" % os.path.basename(f)[:-5])
+out.append(tail.replace("{{SEEDED_RESULTS}}", table).replace("{{NATIVE_AXIOMS}}", "\n".join(nat_lines)))
 out.append(open(os.path.join(VERIF, "design/90_appendixA.md")).read())
 open(os.path.join(VERIF, "DESIGN.md"), "w").write("\n".join(out))
 print("DESIGN.md written")
